@@ -83,6 +83,8 @@ def vocabulary():
           # patterns that differ only in the case of an escape letter, with and without IGNORECASE
           ("S", "tags", [("k", "a")], ("match", 3, 1)), ("S", "tags", [("k", "a")], ("match", 4, 1)), ("S", "tags", [("k", "a")], ("search", 3, 1)),
           ("S", "tags", [("k", "a")], ("search", 4, 1)), ("S", "tags", [("k", "a")], ("match", 3, 0)), ("S", "tags", [("k", "a")], ("match", 4, 0)),
+          # a pattern that carries its own global flag, anchored and not
+          ("S", "tags", [("k", "a")], ("match", 5, 0)), ("S", "tags", [("k", "a")], ("search", 5, 0)), ("S", "tags", [("k", "a")], ("match", 5, 1)), ("S", "meas", [], ("match", 5, 0)),
           ("noop", "tags"), ("noop", "fields"), ("noop", "meas"), ("noop", "time"),
           ("noop", "tags", "a"), ("noop", "tags", "zz"), ("noop", "fields", "a"), ("noop", "fields", "zz", "y")]
     import dbmodel as _M
@@ -118,6 +120,24 @@ def twin_compounds():
         for y in a:
             if x is not y and x[1] == y[1]:
                 out += [("and", x, y), ("or", x, y)]
+    return out
+
+
+def deep_chains(depths=(205, 230, 260, 320)):
+    """queries composed operand by operand (`q = q & c`, `q = q | c`, now and then `q = ~q`): left spines some hundred levels deep, the way a caller
+    folds a list of conditions into one query - every level's operator must be applied, whatever the levels below decided"""
+    import random as _r
+    v, _ = vocabulary()
+    atoms = [q for q in v if q[0] == "S" and q[3][0] in ("cmp", "exists") and not any(p[0] == "m" for p in q[2])]
+    out = []
+    for d in depths:
+        rng = _r.Random(d)
+        q = rng.choice(atoms)
+        for i in range(d):
+            q = (rng.choice(["and", "or"]), q, rng.choice(atoms))
+            if rng.random() < 0.08:
+                q = ("not", q)
+        out += [q, ("not", q), ("and", q, rng.choice(atoms)), ("or", rng.choice(atoms), q)]
     return out
 
 
